@@ -121,6 +121,9 @@ var c15ExtraSDL = []string{
 	"interface A { a: Int } interface B implements A { a: Int b: Int } type T implements B & A { a: Int b: Int } type Query { t: A }",
 	"scalar JSON scalar Date type Query { j(j: JSON = \"{}\", d: Date): JSON }",
 	"union U = A | B type A { a: Int } type B { b: Int } type Query { u: [U!] }",
+	// wrapped deeper than the introspection query unfolds: nobody can rebuild this from the standard query, refusing it is fine, dying is not
+	"type Query { deepest: [[[[Int!]!]!]!]! ok: Int }",
+	"type Query { f(a: [[[[Int!]!]!]!]!): Int } input I { deep: [[[[String!]!]!]!] }",
 	// directives named like those of newer specification drafts are the service's own definitions
 	"directive @defer(label: String, if: Boolean = true) on FRAGMENT_SPREAD | INLINE_FRAGMENT directive @oneOf on INPUT_OBJECT directive @stream(initialCount: Int = 0) on FIELD type Query { a: Int }",
 	// string defaults with escape sequences and no quote inside (argument, input field, directive argument)
